@@ -214,7 +214,28 @@ func stringFor(t *rapid.T, s *spec.Spec) (any, bool) {
 		if s.Pattern != nil {
 			str = rapid.StringMatching(*s.Pattern).Draw(t, "strPat")
 		} else {
-			switch rapid.IntRange(0, 5).Draw(t, "strKind") {
+			switch rapid.IntRange(0, 6).Draw(t, "strKind") {
+			case 6:
+				// multi-byte runes filling a byte length within the bounds: the rune count is smaller than the byte
+				// count, possibly below the minimum (lengths are bytes)
+				lo, hi := int64(0), int64(12)
+				if s.Min != nil && *s.Min > lo {
+					lo = *s.Min
+				}
+				if s.Max != nil && *s.Max < hi {
+					hi = *s.Max
+				}
+				if hi < lo {
+					hi = lo
+				}
+				n := int(rapid.Int64Range(lo, hi).Draw(t, "strBytes"))
+				for len(str) < n {
+					r := rapid.SampledFrom([]string{"é", "日", "ß", "a", "𝄞"}).Draw(t, "mbRune")
+					if len(str)+len(r) > n {
+						r = "a"
+					}
+					str += r
+				}
 			case 0:
 				str = ""
 			case 1:
